@@ -1,6 +1,7 @@
 package sd
 
 import (
+	"fmt"
 	"os"
 	"sync"
 	"sync/atomic"
@@ -223,10 +224,83 @@ func (r *Runner) RunConcHistory(histNo int, o ConcOpts) error {
 	// after the writers finished: the sequential model, warm and cold
 	o2 := FaultOpts{Rank: o.Rank, Sample: 30}
 	r.observeAll(leaves, o2)
+	for i := 0; i < 3; i++ {
+		if err := r.QuietBurst(4); err != nil {
+			return err
+		}
+	}
 	if err := r.Reopen(); err != nil {
 		return err
 	}
 	r.observeAll(leaves, o2)
+	return nil
+}
+
+// QuietBurst: no writer is running. k searchers issue the same graph search at
+// the same moment on cold caches; each answer must equal the answer of a single
+// search on a cold copy of the file (the search is a function of the persisted
+// graph, whoever fills the shared cache).
+func (r *Runner) QuietBurst(k int) error {
+	if r.Cfg.Mem {
+		return nil
+	}
+	for _, p := range r.Cfg.Props {
+		if p.Type != models.IndexTypeVectorVamana {
+			continue
+		}
+		if err := r.Reopen(); err != nil {
+			return err
+		}
+		vec, avec := r.G.vec(p.Dim, p.Metric)
+		limit := r.limit()
+		ss := 25 + r.R.Intn(51)
+		if ss < limit {
+			ss = limit
+		}
+		run := func(sh *shard.Shard) ([]M, error) {
+			q := models.Query{Property: p.Name, VectorVamana: &models.SearchVectorVamanaOptions{Vector: append([]float32{}, vec...), Operator: models.OperatorNear, Limit: limit, SearchSize: ss}}
+			res, err := sh.SearchPoints(models.SearchRequest{Query: q, Limit: 100000})
+			if err != nil {
+				return nil, err
+			}
+			h, ok := r.hits(res, MetricScale(p.Metric))
+			if !ok {
+				return nil, fmt.Errorf("result without distance")
+			}
+			return h, nil
+		}
+		answers := make([][]M, k)
+		errs := make([]error, k)
+		var wg sync.WaitGroup
+		start := make(chan struct{})
+		for i := 0; i < k; i++ {
+			wg.Add(1)
+			go func(i int) {
+				defer wg.Done()
+				<-start
+				answers[i], errs[i] = run(r.Shard)
+			}(i)
+		}
+		close(start)
+		wg.Wait()
+		cold, done, err := r.ColdCopy()
+		if err != nil {
+			return err
+		}
+		ref, err := run(cold)
+		done()
+		if err != nil {
+			r.obsErr("VamanaPair", err)
+			continue
+		}
+		for i := range answers {
+			if errs[i] != nil {
+				r.obsErr("QuietBurst", errs[i])
+				continue
+			}
+			r.TW.Emit("VamanaPair", M{"p": p.Name, "vec": avec, "limit": limit, "ss": ss, "a": answers[i], "b": ref, "what": "burst/single", "tol": tolFor(p.Metric), "quant": b2i(r.Cfg.Quantised)})
+		}
+	}
 	return nil
 }
 
